@@ -496,11 +496,12 @@ public final class X04Exec {
                 Map<String, Object> cfg = J.obj(co);
                 List<Object> allow = J.arr(cfg.get("allow")), block = J.arr(cfg.get("block"));
                 String a = joinRaw(allow), b = joinRaw(block);
+                String envform = J.s(cfg, "envform", "normal");        // "allow-empty": LUNAR_ALLOW_LIST is SET to the empty string
                 TrafficFilter tf = null;
                 Throwable ctor = null;
                 try {
                     // the variable is unset when the joined list is the empty string (as py/c19_exec.py)
-                    tf = newFilter(a.isEmpty() ? null : a, b.isEmpty() ? null : b, cold);
+                    tf = newFilter(a.isEmpty() ? (envform.equals("allow-empty") ? "" : null) : a, b.isEmpty() ? null : b, cold);
                 } catch (java.lang.reflect.InvocationTargetException e) {
                     ctor = e.getCause();
                 } catch (Throwable e) {
@@ -521,7 +522,7 @@ public final class X04Exec {
                             rec.put("ev", "case"); rec.put("impl", "java"); rec.put("allow", allow); rec.put("block", block);
                             rec.put("host", h.get("h")); rec.put("hlow", h.get("hlow")); rec.put("hcanon", h.get("hcanon"));
                             rec.put("kind", h.get("kind")); rec.put("ip", h.get("ip")); rec.put("ip6", h.get("ip6")); rec.put("rsv", h.get("rsv"));
-                            rec.put("header", header); rec.put("round", rnd); rec.put("exc", ""); rec.put("stage", "");
+                            rec.put("header", header); rec.put("round", rnd); rec.put("exc", ""); rec.put("stage", ""); rec.put("envform", envform);
                             if (ctor != null) {
                                 rec.put("res", "raise"); rec.put("exc", ctor.getClass().getSimpleName()); rec.put("stage", "construct");
                             } else {
